@@ -56,7 +56,8 @@ def harness_specs(tier):
         san = [dict(name='h_c14_ext%d_san' % g, src='h_c14_ext.cpp', flavour='san', extra=['-DC14_GROUP=%d' % g] + FLT(g)) for g in SAN_GROUPS]
     return san + ([dict(name='h_c14_probe%d' % g, src='h_c14_probe.cpp', flavour='fast', extra=['-DC14_PROBE_GROUP=%d' % g]) for g in PROBE_GROUPS] +
             [dict(name='h_c14_ext%d' % g, src='h_c14_ext.cpp', flavour='fast', extra=['-DC14_GROUP=%d' % g] + FLT(g)) for g in EXT_GROUPS] +
-            [dict(name='h_c14_fn%d' % g, src='h_c14_fn.cpp', flavour='fast', extra=['-DC14_FN_GROUP=%d' % g]) for g in FN_GROUPS])
+            [dict(name='h_c14_fn%d' % g, src='h_c14_fn.cpp', flavour='fast', extra=['-DC14_FN_GROUP=%d' % g]) for g in FN_GROUPS] +
+            [dict(name='h_c14_mb%d' % g, src='h_c14_mb.cpp', flavour='fast', extra=['-DC14_MB_GROUP=%d' % g]) for g in MB_GROUPS])
 
 
 # ---------------------------------------------------------------------------------------------------------------
@@ -870,6 +871,194 @@ def fn_cases(tier, rng):
                        model=False, cmp=fn_cmp, nontrivial=True, tags=['fn', 'functor=' + name, 'arity=%d' % e['n']])
 
 
+# ---------------------------------------------------------------------------------------------------------------
+# compositions f * g with g returning a maybe<view> (validated at run time) and f carrying attributes (h_c14_mb.cpp)
+# ---------------------------------------------------------------------------------------------------------------
+def mleaf(shape, j, data):
+    n = prod(shape); k = np.arange(n, dtype=np.int64)
+    if data == 'float':
+        return (0.5 * ((k * 7 + 3 * j) % 13) - 3.0).reshape(shape)
+    if data == 'small':
+        return (((k * 5 + 2 * j) % 7) + 1).reshape(shape)
+    return (k + 1000 * j).reshape(shape)
+
+
+def _mb_g(rng):
+    """a run-time validated g: (name, operand shape, attributes of g, numpy function) — about one in four fails"""
+    fail = rng.random() < 0.25
+    kind = rng.choice(['reshape', 'reshape', 'broadcast_to', 'broadcast_to', 'expand_dims', 'moveaxis'])
+    if kind == 'reshape':
+        s = rshape(rng, max_rank=3, cap=24); n = prod(s)
+        d = rng.choice([x for x in range(1, n + 1) if n % x == 0]); to = [d, n // d]
+        if rng.random() < 0.4:
+            e = rng.choice([x for x in range(1, to[1] + 1) if to[1] % x == 0]); to = [to[0], e, to[1] // e]
+        if rng.random() < 0.2:
+            to = [n]
+        if fail:
+            to[rng.randrange(len(to))] += rng.choice([1, 2])
+        return kind, s, dict(gto=to), lambda x: x.reshape(to)
+    if kind == 'broadcast_to':
+        t = rshape(rng, max_rank=3, cap=24); s = bpartner(rng, t)
+        if fail:
+            i = rng.randrange(len(s)); s = list(s); s[i] = t[len(t) - len(s) + i] + 1
+        return kind, s, dict(gto=t), lambda x: np.broadcast_to(x, t)
+    if kind == 'expand_dims':
+        s = rshape(rng, max_rank=3, cap=24); ax = rng.randint(len(s) + 1, len(s) + 2) if fail else rng.randint(0, len(s))
+        return kind, s, dict(gaxis=ax), lambda x: np.expand_dims(x, ax)
+    s = rshape(rng, min_rank=2, max_rank=3, cap=24); a, b = rng.randrange(len(s)), rng.randrange(len(s))
+    if fail:
+        if rng.random() < 0.5:
+            a = len(s) + rng.randint(0, 1)
+        else:
+            b = len(s) + rng.randint(0, 1)
+    return kind, s, dict(gsrc=a, gdst=b), lambda x: np.moveaxis(x, a, b)
+
+
+def _mb_table():
+    T = {}
+
+    def add(name, group, ref, attrs, data='prov', n=1, second=None):
+        # attrs(rng, t) -> attributes of f for an operand of shape t (or None: no instance for that shape)
+        T[name] = dict(group=group, ref=ref, attrs=attrs, data=data, n=n, second=second)
+    # --- parametrised unary ufuncs: two NON-DEFAULT values each (quarter units), binary32 ---
+    def pvals(vals):
+        cyc = itertools.cycle(vals)
+        return lambda rng, t: dict(pq=list(next(cyc)))
+    q = lambda p, i: F32(0.25 * p['pq'][i])
+    f32 = lambda x: np.asarray(x, dtype=np.float32)
+    add('leaky_relu', 1, lambda x, p: POPS['leaky_relu'](f32(x), [q(p, 0)]), pvals([(2,), (12,)]), 'float')
+    add('prelu', 1, lambda x, p: POPS['prelu'](f32(x), [q(p, 0)]), pvals([(2,), (16,)]), 'float')
+    add('elu', 1, lambda x, p: POPS['elu'](f32(x), [q(p, 0)]), pvals([(2,), (10,)]), 'float')
+    add('celu', 1, lambda x, p: POPS['celu'](f32(x), [q(p, 0)]), pvals([(2,), (10,)]), 'float')
+    add('hardtanh', 1, lambda x, p: POPS['hardtanh'](f32(x), [q(p, 0), q(p, 1)]), pvals([(-2, 3), (-10, 8)]), 'float')
+    add('hardtanh1', 1, lambda x, p: POPS['hardtanh'](f32(x), [q(p, 0), F32(1)]), pvals([(-2,), (-10,)]), 'float')        # max_val defaulted
+    add('softplus', 1, lambda x, p: POPS['softplus'](f32(x), [q(p, 0), q(p, 1)]), pvals([(8, 2), (2, 4)]), 'float')
+    add('softplus1', 1, lambda x, p: POPS['softplus'](f32(x), [q(p, 0), F32(20)]), pvals([(8,), (2,)]), 'float')          # threshold defaulted
+    add('hardshrink', 1, lambda x, p: POPS['hardshrink'](f32(x), [q(p, 0)]), pvals([(1,), (8,)]), 'float')
+    add('softshrink', 1, lambda x, p: POPS['softshrink'](f32(x), [q(p, 0)]), pvals([(1,), (5,)]), 'float')
+    none = lambda rng, t: {}
+    add('relu', 1, lambda x, p: np.maximum(f32(x), 0), none, 'float')
+    add('leaky_relu0', 1, lambda x, p: POPS['leaky_relu'](f32(x), [F32(0.01)]), none, 'float')
+    # --- reductions / accumulations ---
+    def ax(rng, t):
+        return dict(axis=rng.randrange(len(t))) if len(t) >= 1 else None
+    def ax2(rng, t):        # reductions to an array: rank >= 2
+        return dict(axis=rng.randrange(len(t))) if len(t) >= 2 else None
+    def ax2i(rng, t):
+        return dict(axis=rng.randrange(len(t)), init=rng.choice([-5, 3, 7, 100])) if len(t) >= 2 else None
+    def ax2m(rng, t):
+        return dict(axis=rng.randrange(len(t)), init=rng.choice([2, 3])) if len(t) >= 2 and max(t) <= 3 else None
+    add('reduce_add', 2, lambda x, p: np.sum(x, axis=p['axis']), ax2)
+    add('reduce_add_init', 2, lambda x, p: np.sum(x, axis=p['axis'], initial=p['init']), ax2i)
+    add('reduce_add_keep', 2, lambda x, p: np.sum(x, axis=p['axis'], keepdims=True), ax2)
+    add('reduce_add_init_keep', 2, lambda x, p: np.sum(x, axis=p['axis'], initial=p['init'], keepdims=True), ax2i)
+    add('reduce_maximum', 2, lambda x, p: np.max(x, axis=p['axis']), ax2)
+    add('reduce_maximum_init_keep', 2, lambda x, p: np.max(x, axis=p['axis'], initial=p['init'], keepdims=True), ax2i)
+    add('reduce_multiply_init', 2, lambda x, p: np.prod(x, axis=p['axis'], initial=p['init']), ax2m, 'small')
+    add('accumulate_add', 2, lambda x, p: np.cumsum(x, axis=p['axis']), ax)
+    add('sum', 2, lambda x, p: np.sum(x, axis=p['axis']), ax2)
+    add('sum_init_keep', 2, lambda x, p: np.sum(x, axis=p['axis'], initial=p['init'], keepdims=True), ax2i)
+    add('prod', 2, lambda x, p: np.prod(x, axis=p['axis']), lambda rng, t: ax2(rng, t) if max(t) <= 3 else None, 'small')
+    add('cumsum', 2, lambda x, p: np.cumsum(x, axis=p['axis']), ax)
+    add('cumprod', 2, lambda x, p: np.cumprod(x, axis=p['axis']), lambda rng, t: ax(rng, t) if max(t) <= 3 else None, 'small')
+    # --- indexing functors (f itself may fail at run time: reshape / broadcast_to) ---
+    add('transpose', 3, lambda x, p: np.transpose(x, p['axes']), lambda rng, t: dict(axes=perm(rng, len(t))))
+    add('tile', 3, lambda x, p: np.tile(x, p['reps']), lambda rng, t: dict(reps=[rng.randint(1, 2) for _ in range(rng.randint(1, len(t) + 1))]))
+    add('repeat', 3, lambda x, p: np.repeat(x, p['r'], p['axis']), lambda rng, t: dict(r=rng.randint(1, 3), axis=rng.randrange(len(t))))
+    add('moveaxis', 3, lambda x, p: np.moveaxis(x, p['src'], p['dst']), lambda rng, t: dict(src=rng.randrange(len(t)), dst=rng.randrange(len(t))))
+    def a_reshape(rng, t):
+        n = prod(t); d = rng.choice([x for x in range(1, n + 1) if n % x == 0]); to = [d, n // d]
+        if rng.random() < 0.2:
+            to[0] += 1
+        return dict(to=to)
+    add('reshape', 3, lambda x, p: x.reshape(p['to']), a_reshape)
+    def a_bcast(rng, t):
+        to = [rng.randint(1, 2)] * rng.randint(0, 1) + [e if e > 1 else rng.randint(1, 3) for e in t]
+        if rng.random() < 0.2:
+            to[-1] += 1
+        return dict(to=to)
+    add('broadcast_to', 3, lambda x, p: np.broadcast_to(x, p['to']), a_bcast)
+    add('flatten', 3, lambda x, p: x.reshape(-1), none)
+    add('negative', 3, lambda x, p: -x, none)
+    # binary functors: the second operand is passed on behind the (maybe) result of g
+    add('add', 3, lambda x, p, y: x + y, none, n=2, second=lambda rng, t: bpartner(rng, t))
+    add('subtract', 3, lambda x, p, y: x - y, none, n=2, second=lambda rng, t: bpartner(rng, t))
+    def s_concat(rng, t, p):
+        u = list(t); u[p['axis']] = rng.randint(1, 3); return u
+    add('concatenate', 3, lambda x, p, y: np.concatenate([x, y], p['axis']), ax, n=2, second=s_concat)
+    # --- norms (double) ---
+    add('mean', 4, lambda x, p: np.mean(x, axis=p['axis']), ax2, 'float')
+    add('var', 4, lambda x, p: np.var(x, axis=p['axis']), ax2, 'float')
+    add('stddev', 4, lambda x, p: np.std(x, axis=p['axis']), ax2, 'float')
+    add('softmax', 4, lambda x, p: softmax_np(x, p['axis']), ax2, 'float')
+    add('softmin', 4, lambda x, p: softmax_np(-x, p['axis']), ax2, 'float')
+    return T
+
+
+MB = _mb_table()
+MB_GROUPS = [1, 2, 3, 4]
+
+
+def make_mb_cmp(rtol, atol):
+    def cmp(a, b):
+        if not (a.startswith('ok ') and b.startswith('ok ')):
+            return a == b
+        da, db = parse_kv(a), parse_kv(b)
+        if any(da.get(k) != db.get(k) for k in ('shape', 'forms', 'agree')):
+            return False
+        fa = np.array([float(v) for v in da['data'].split(',')]) if da['data'] != '[]' else np.array([])
+        fb = np.array([float(v) for v in db['data'].split(',')]) if db['data'] != '[]' else np.array([])
+        return fa.shape == fb.shape and bool(np.allclose(fa, fb, rtol=rtol, atol=atol))
+    return cmp
+
+
+MB_CMP = {1: make_mb_cmp(2e-5, 2e-6), 2: make_mb_cmp(0, 0), 3: make_mb_cmp(0, 0), 4: make_mb_cmp(1e-7, 1e-9)}
+
+
+def mb_cases(tier, rng):
+    ncase = 6 if tier == 'quick' else 40
+    for name, e in MB.items():
+        made = tries = nfail = 0
+        while made < ncase and tries < 40 * ncase:
+            tries += 1
+            gname, s, gattrs, gfun = _mb_g(rng)
+            x = mleaf(s, 0, e['data'])
+            try:
+                gx = gfun(x); t = list(gx.shape)
+            except ValueError:          # (numpy.AxisError is a ValueError)
+                gx = None; t = None
+            if gx is None and nfail >= max(1, ncase // 3):
+                continue
+            # attributes of f: for the shape g produces (g failing: for the operand's own shape — they are never looked at)
+            p = e['attrs'](rng, t if t is not None else s)
+            if p is None:
+                continue
+            shapes = [s]; env = [x]
+            if e['n'] == 2:
+                tt = t if t is not None else s
+                s1 = e['second'](rng, tt, p) if name == 'concatenate' else e['second'](rng, tt)
+                shapes.append(s1); env.append(mleaf(s1, 1, e['data']))
+            res = None
+            if gx is not None:
+                try:
+                    res = np.asarray(e['ref'](gx, p, *env[1:]))
+                except ValueError:
+                    res = None
+                if res is not None and (res.size == 0 or res.size > 64 or (res.dtype.kind == 'i' and np.abs(res).max() >= 2 ** 31)):
+                    continue
+            nforms = 2 if gx is None else (5 if e['n'] == 1 else 4)
+            if res is None:
+                oracle = 'nothing forms=%d agree=%d' % (nforms, nforms)
+            else:
+                data = ','.join(('%d' % v) if res.dtype.kind == 'i' else ('%.12g' % v) for v in res.reshape(-1))
+                oracle = 'ok shape=%s data=%s forms=%d agree=%d' % (fmt(list(res.shape)), data, nforms, nforms)
+            made += 1; nfail += gx is None
+            req = ' '.join(('c14_mb f=%s g=%s shapes=%s %s %s data=%s' % (name, gname, fmt_lists(shapes), fmt_params(gattrs), fmt_params(p), e['data'])).split())
+            yield Case(req, 'h_c14_mb%d' % e['group'], oracle=oracle, model=False, cmp=MB_CMP[e['group']], nontrivial=True,
+                       tags=['maybe-comp', 'f=' + name, 'g=' + gname, 'g-fails' if gx is None else ('f-fails' if res is None else 'valid'),
+                             'f-attrs=%d' % len(p)])
+
+
 def gen(tier, rng):
     yield from probe_cases(tier, rng)
     k = 0
@@ -880,6 +1069,7 @@ def gen(tier, rng):
         if tier == 'thorough' and c.dom and c.req.startswith('c14_extract') and g in SAN_GROUPS and k % 3 == 0:
             yield Case(c.req, c.harness + '_san', dom=True, oracle=c.oracle, model=False, cmp=c.cmp, nontrivial=False, tags=list(c.tags) + ['san'])
     yield from fn_cases(tier, rng)
+    yield from mb_cases(tier, rng)
 
 
 def _args(c):
@@ -894,4 +1084,35 @@ def sibling_subviews_unaliased(c):
     return c.req.startswith('c14_graph ') and EXT.get(_args(c).get('prog'), {}).get('sibling', False)
 
 
-KNOWN_PREDICATES = {'nonfirst_view_operand': nonfirst_view_operand, 'sibling_subviews_unaliased': sibling_subviews_unaliased}
+def mb_g_fails(a):
+    """does the run-time validated g of a c14_mb request reject its arguments? (decided from the request alone, NumPy rules)"""
+    ints = lambda k: [int(v) for v in a[k].split(',')]
+    s = [int(v) for v in a['shapes'].split(';')[0].split(',')]
+    x = np.zeros(s)
+    try:
+        g = a['g']
+        if g == 'reshape':
+            x.reshape(ints('gto'))
+        elif g == 'broadcast_to':
+            np.broadcast_to(x, ints('gto'))
+        elif g == 'expand_dims':
+            np.expand_dims(x, int(a['gaxis']))
+        elif g == 'moveaxis':
+            np.moveaxis(x, int(a['gsrc']), int(a['gdst']))
+        else:
+            return False
+    except ValueError:
+        return True
+    return False
+
+
+def norm_over_nothing(c):
+    """mean / var / stddev to the left of a g whose run-time validation FAILS: the view functions unwrap the Nothing operand"""
+    if not c.req.startswith('c14_mb '):
+        return False
+    a = _args(c)
+    return a.get('f') in ('mean', 'var', 'stddev') and mb_g_fails(a)
+
+
+KNOWN_PREDICATES = {'nonfirst_view_operand': nonfirst_view_operand, 'sibling_subviews_unaliased': sibling_subviews_unaliased,
+                    'norm_over_nothing': norm_over_nothing}
